@@ -16,6 +16,7 @@ setProblemDefinition | addStart | getPlannerData with an RRT-like tree core; ker
 """
 import os
 import re
+import threading
 import time
 from concurrent.futures import ThreadPoolExecutor
 
@@ -617,7 +618,14 @@ def canon_model(lines):
     return out
 
 
+LOCK_CRASHES = {}
+REPORT_LOCK = threading.Lock()     # lockstep() runs in worker threads; Check.report is not thread-safe
 LOCKSTEP_CORE = {"RRT": ("rrt", "proto core=rrt"), "cRRTi": ("crrt", "proto core=crrt " + F(0.02))}
+
+
+def _locked_report(ck, *a, **kw):
+    with REPORT_LOCK:
+        return ck.report(*a, **kw)
 
 
 def lockstep(ck, rn, seed, hname, k, K, ops, planner="RRT"):
@@ -625,16 +633,22 @@ def lockstep(ck, rn, seed, hname, k, K, ops, planner="RRT"):
     script, out, rc, err = rn.run(planner, seed, ops, trace=1)
     ck.traces_validated += 1
     ck.count("lockstep:histories:" + planner)
-    if out is None or len(out) <= len(ops) or rc != 0:
-        ck.report({"engine": "proto", "planner": planner, "clause": "crash", "ctx": "lockstep", "history": hname}, script=script,
-                  observed={"out": out, "rc": rc, "stderr": sanitizer_summary(err)}, engine="proto")
+    if out is None or len(out) <= len(ops):
+        with REPORT_LOCK:
+            LOCK_CRASHES[planner] = LOCK_CRASHES.get(planner, 0) + 1
+            first = LOCK_CRASHES[planner] <= 2
+        if first:       # the first two per planner are written out, the rest only counted
+            _locked_report(ck, {"engine": "proto", "planner": planner, "clause": "crash", "ctx": "lockstep", "history": hname}, script=script,
+                      observed={"out": out, "rc": rc, "stderr": sanitizer_summary(err)}, engine="proto")
+        ck.count("lockstep:crash-or-sanitizer:" + planner)
         return False
     try:
         model_ops, impl = translate_trace(ops, out, core_name)
     except ValueError as e:
-        ck.disagreements += 1
+        with REPORT_LOCK:
+            ck.disagreements += 1
         if ck.disagreements <= 3:
-            ck.report({"engine": "proto", "what": "trace shape"}, script=script, observed=out, found_input=False, engine="proto",
+            _locked_report(ck, {"engine": "proto", "what": "trace shape"}, script=script, observed=out, found_input=False, engine="proto",
                       obligation="correspondence proto: the trace of %s does not have the loop shape of the model (%s)" % (planner, e))
         return False
     mscript = [mheader] + model_ops
@@ -646,16 +660,25 @@ def lockstep(ck, rn, seed, hname, k, K, ops, planner="RRT"):
     ck.count("lockstep:draws", sum(int(m.split()[2]) for m in model_ops if m.startswith("solve")))
     d = ck.first_diff(impl, model)
     if d is not None:
-        ck.disagreements += 1
+        with REPORT_LOCK:
+            ck.disagreements += 1
         if ck.disagreements > 3:      # the first three are written out as replays, the rest only counted
             return False
-        ck.report({"engine": "proto", "what": "model/implementation disagreement"}, script=script,
+        _locked_report(ck, {"engine": "proto", "what": "model/implementation disagreement"}, script=script,
                   expected={"model_script": mscript, "model": model}, observed={"impl": impl, "first_diff": d},
                   found_input=False, engine="proto",
                   obligation="correspondence proto: %s vs OmplModel.Model.PlannerProto, history %s k=%s seed=%s, "
                              "first differing op %d: impl %r model %r" % (planner, hname, k, seed, d, impl[d][:160] if d < len(impl) else None,
                                                                          model[d][:160] if d < len(model) else None))
         ck.log("lock-step disagreement %s %s k=%s seed=%s at op %d" % (planner, hname, k, seed, d))
+        return False
+    if rc != 0:
+        with REPORT_LOCK:
+            LOCK_CRASHES[planner] = LOCK_CRASHES.get(planner, 0) + 1
+            first = LOCK_CRASHES[planner] <= 2
+        if first:
+            _locked_report(ck, {"engine": "proto", "planner": planner, "clause": "sanitizer", "ctx": "lockstep", "history": hname},
+                           script=script, observed={"rc": rc, "stderr": sanitizer_summary(err)}, engine="proto")
         return False
     return True
 
@@ -703,6 +726,8 @@ def run(ck):
     rn = Runner(ck, hbin)
     quick = ck.tier == "quick"
     REPORTED.clear()
+    LOCK_CRASHES.clear()
+    CTL_DRAW_KINDS.clear()
     stats = {"after": {}, "status": collections.Counter(), "motion-invalid": {}}
     hs = histories(ck.tier)
     workers = min(16, (os.cpu_count() or 4))
